@@ -952,7 +952,7 @@ func genDotSites(e *Env) (string, error) {
 	}
 
 	// escapeForDot: the chain of ReplaceAll calls, innermost first
-	spec, err := dsEscapeSpec(c)
+	spec, form, err := dsEscapeSpec(c)
 	if err != nil {
 		return "", err
 	}
@@ -990,7 +990,8 @@ func genDotSites(e *Env) (string, error) {
 		fmt.Fprintf(&b, "  ⟨%s, %s, %v, .%s, %s, %s⟩%s\n", leanStr(s.fn), leanStr(s.key), s.quoted, s.cls, leanStr(s.expr), leanStr(s.position), sep)
 	}
 	b.WriteString("]\n\n")
-	b.WriteString("/-- `escapeForDot` acts byte by byte (nested one-byte ReplaceAll / NewReplacer): the bytes it changes, ascending, and their images -/\n")
+	b.WriteString("/-- `escapeForDot` in a recognised byte-wise form (escapeForm ≠ \"unknown\"): the bytes it changes, ascending, and their images -/\n")
+	fmt.Fprintf(&b, "def escapeForm : String := %s\n", leanStr(form))
 	b.WriteString("def escapeBytes : List (UInt8 × List UInt8) := [")
 	for i, p := range spec {
 		if i > 0 {
@@ -1006,7 +1007,7 @@ func genDotSites(e *Env) (string, error) {
 		b.WriteString("])")
 	}
 	b.WriteString("]\n\n")
-	fmt.Fprintf(&b, "/-- `escapeAllForDot` applies `escapeForDot` to every element -/\ndef escapeAllMaps : Bool := %v\n\n", allMaps)
+	fmt.Fprintf(&b, "/-- does `escapeAllForDot` apply `escapeForDot` to every element: \"yes\" (a recognised loop form) or \"unknown\" -/\ndef escapeAllMaps : String := %s\n\n", leanStr(allMaps))
 	b.WriteString("/-- other non-test files of the module containing DOT-looking string literals -/\ndef otherEmitters : List String := [")
 	for i, o := range others {
 		if i > 0 {
@@ -1024,19 +1025,25 @@ type dsRepl struct {
 }
 
 // dsEscapeSpec reads escapeForDot and returns its action on single bytes (only the bytes it
-// changes, ascending).  Two shapes are understood, both of which act byte by byte:
-//   - a single `return` of nested strings.ReplaceAll(…) calls with one-byte literal patterns
-//     (a chain of byte-wise homomorphisms is a byte-wise homomorphism, so applying the chain to
-//     each one-byte string gives the whole function);
-//   - `strings.NewReplacer(old1, new1, …).Replace(x)` with one-byte literal patterns.
-func dsEscapeSpec(c *dsCtx) ([]dsRepl, error) {
+// changes, ascending) together with the form it recognised.  Three forms are understood, all
+// of which act byte by byte, so that the action on the 256 one-byte strings IS the function:
+//   - "replaceall": a single `return` of nested strings.ReplaceAll(…) calls with one-byte literal
+//     patterns (a chain of byte-wise homomorphisms is a byte-wise homomorphism);
+//   - "newreplacer": `strings.NewReplacer(old1, new1, …).Replace(x)` with one-byte literal patterns;
+//   - "switch-loop": an index loop over the bytes of the argument whose body is one `switch` on
+//     the byte — `case 'c': sb.WriteString(lit)` … `default: sb.WriteByte(c)` — optionally behind
+//     a strings.IndexAny fast path whose character set is exactly the set of the cases.
+//
+// Any other body gives form "unknown" and no map: the Lean obligation escape_spec_matches is then
+// vacuous and the byte map is pinned only by the harness (every byte value 0..255 is pushed
+// through the real escapeForDot in every run and compared with the model).
+func dsEscapeSpec(c *dsCtx) ([]dsRepl, string, error) {
 	fd, ok := c.funcs["escapeForDot"]
 	if !ok {
-		return nil, fmt.Errorf("dotgraph.go: escapeForDot not found")
+		return nil, "", fmt.Errorf("dotgraph.go: escapeForDot not found")
 	}
-	rets := dsReturns(fd)
-	if len(rets) != 1 || len(fd.Body.List) != 1 || len(fd.Type.Params.List) != 1 || len(fd.Type.Params.List[0].Names) != 1 {
-		return nil, fmt.Errorf("dotgraph.go: escapeForDot is no longer a single return statement")
+	if len(fd.Type.Params.List) != 1 || len(fd.Type.Params.List[0].Names) != 1 || !dsReturnsString(fd) {
+		return nil, "", fmt.Errorf("dotgraph.go: escapeForDot is no longer func(string) string")
 	}
 	param := fd.Type.Params.List[0].Names[0].Name
 	isParam := func(e ast.Expr) bool {
@@ -1044,44 +1051,70 @@ func dsEscapeSpec(c *dsCtx) ([]dsRepl, error) {
 		return ok && id.Name == param
 	}
 	var apply func(s string) string
-	e := rets[0]
-	if call, ok := e.(*ast.CallExpr); ok {
-		if se, ok := call.Fun.(*ast.SelectorExpr); ok && se.Sel.Name == "Replace" && len(call.Args) == 1 && isParam(call.Args[0]) {
-			if nr, ok := se.X.(*ast.CallExpr); ok && dsCallName(nr) == "strings.NewReplacer" && len(nr.Args)%2 == 0 {
-				var pairs []string
-				for i, a := range nr.Args {
-					v, ok := dsStrLit(a)
-					if !ok || (i%2 == 0 && len(v) != 1) {
-						return nil, fmt.Errorf("dotgraph.go: escapeForDot: NewReplacer arguments are not one-byte literal patterns / literals")
+	form := "unknown"
+	rets := dsReturns(fd)
+	if len(rets) == 1 && len(fd.Body.List) == 1 {
+		e := rets[0]
+		if call, ok := e.(*ast.CallExpr); ok {
+			if se, ok := call.Fun.(*ast.SelectorExpr); ok && se.Sel.Name == "Replace" && len(call.Args) == 1 && isParam(call.Args[0]) {
+				if nr, ok := se.X.(*ast.CallExpr); ok && dsCallName(nr) == "strings.NewReplacer" && len(nr.Args)%2 == 0 {
+					var pairs []string
+					good := true
+					for i, a := range nr.Args {
+						v, ok := dsStrLit(a)
+						if !ok || (i%2 == 0 && len(v) != 1) {
+							good = false
+						}
+						pairs = append(pairs, v)
 					}
-					pairs = append(pairs, v)
+					if good {
+						apply, form = strings.NewReplacer(pairs...).Replace, "newreplacer"
+					}
 				}
-				r := strings.NewReplacer(pairs...)
-				apply = r.Replace
+			}
+		}
+		if apply == nil {
+			var chain []dsRepl
+			good := true
+			for good && !isParam(e) {
+				call, ok := e.(*ast.CallExpr)
+				if !ok || dsCallName(call) != "strings.ReplaceAll" || len(call.Args) != 3 {
+					good = false
+					break
+				}
+				old, ok1 := dsStrLit(call.Args[1])
+				nw, ok2 := dsStrLit(call.Args[2])
+				if !ok1 || !ok2 || len(old) != 1 {
+					good = false // not a one-byte pattern: the function no longer acts byte by byte
+					break
+				}
+				chain = append([]dsRepl{{old[0], nw}}, chain...)
+				e = call.Args[0]
+			}
+			if good && len(chain) > 0 {
+				form = "replaceall"
+				apply = func(s string) string {
+					for _, r := range chain {
+						s = strings.ReplaceAll(s, string([]byte{r.old}), r.new)
+					}
+					return s
+				}
 			}
 		}
 	}
 	if apply == nil {
-		var chain []dsRepl
-		for !isParam(e) {
-			call, ok := e.(*ast.CallExpr)
-			if !ok || dsCallName(call) != "strings.ReplaceAll" || len(call.Args) != 3 {
-				return nil, fmt.Errorf("dotgraph.go: escapeForDot: unexpected expression %s", src(c.fset, e))
+		if m, ok := dsEscapeSwitchLoop(fd, param); ok {
+			form = "switch-loop"
+			apply = func(s string) string {
+				if r, ok := m[s[0]]; ok {
+					return r
+				}
+				return s
 			}
-			old, ok1 := dsStrLit(call.Args[1])
-			nw, ok2 := dsStrLit(call.Args[2])
-			if !ok1 || !ok2 || len(old) != 1 {
-				return nil, fmt.Errorf("dotgraph.go: escapeForDot: ReplaceAll pattern is not a one-byte literal (the function no longer acts byte by byte)")
-			}
-			chain = append([]dsRepl{{old[0], nw}}, chain...)
-			e = call.Args[0]
 		}
-		apply = func(s string) string {
-			for _, r := range chain {
-				s = strings.ReplaceAll(s, string([]byte{r.old}), r.new)
-			}
-			return s
-		}
+	}
+	if apply == nil {
+		return nil, "unknown", nil
 	}
 	var spec []dsRepl
 	for b := 0; b < 256; b++ {
@@ -1090,28 +1123,277 @@ func dsEscapeSpec(c *dsCtx) ([]dsRepl, error) {
 			spec = append(spec, dsRepl{byte(b), out})
 		}
 	}
-	return spec, nil
+	return spec, form, nil
 }
 
-func dsEscapeAllMaps(c *dsCtx) bool {
-	fd, ok := c.funcs["escapeAllForDot"]
-	if !ok {
-		return false
+func dsByteLit(e ast.Expr) (byte, bool) {
+	bl, ok := e.(*ast.BasicLit)
+	if !ok || bl.Kind != token.CHAR {
+		return 0, false
 	}
-	found := false
+	r, _, _, err := strconv.UnquoteChar(strings.Trim(bl.Value, "'"), '\'')
+	if err != nil || r >= 0x80 {
+		return 0, false
+	}
+	return byte(r), true
+}
+
+// dsEscapeSwitchLoop recognises the byte-wise loop form (see dsEscapeSpec) and returns the map of
+// its cases.  Every statement of the body must be accounted for; anything else is "not recognised".
+func dsEscapeSwitchLoop(fd *ast.FuncDecl, param string) (map[byte]string, bool) {
+	isIdent := func(e ast.Expr, name string) bool {
+		id, ok := e.(*ast.Ident)
+		return ok && id.Name == name
+	}
+	var sb, first, fastSet string
+	haveFast, havePrefix, haveLoop, haveRet := false, false, false, false
+	var loop *ast.ForStmt
+	for _, st := range fd.Body.List {
+		switch x := st.(type) {
+		case *ast.DeclStmt: // var sb strings.Builder
+			gd, ok := x.Decl.(*ast.GenDecl)
+			if !ok || len(gd.Specs) != 1 || sb != "" {
+				return nil, false
+			}
+			vs, ok := gd.Specs[0].(*ast.ValueSpec)
+			if !ok || len(vs.Names) != 1 || len(vs.Values) != 0 {
+				return nil, false
+			}
+			se, ok := vs.Type.(*ast.SelectorExpr)
+			if !ok || se.Sel.Name != "Builder" || !isIdent(se.X, "strings") {
+				return nil, false
+			}
+			sb = vs.Names[0].Name
+		case *ast.AssignStmt: // first := strings.IndexAny(str, "set")
+			if len(x.Lhs) != 1 || len(x.Rhs) != 1 || x.Tok != token.DEFINE || first != "" || haveLoop {
+				return nil, false
+			}
+			call, ok := x.Rhs[0].(*ast.CallExpr)
+			if !ok || dsCallName(call) != "strings.IndexAny" || len(call.Args) != 2 || !isIdent(call.Args[0], param) {
+				return nil, false
+			}
+			set, ok := dsStrLit(call.Args[1])
+			id, ok2 := x.Lhs[0].(*ast.Ident)
+			if !ok || !ok2 {
+				return nil, false
+			}
+			first, fastSet = id.Name, set
+		case *ast.IfStmt: // if first < 0 { return str }
+			be, ok := x.Cond.(*ast.BinaryExpr)
+			if !ok || first == "" || be.Op != token.LSS || !isIdent(be.X, first) || x.Else != nil || x.Init != nil || len(x.Body.List) != 1 {
+				return nil, false
+			}
+			if z, ok := be.Y.(*ast.BasicLit); !ok || z.Value != "0" {
+				return nil, false
+			}
+			r, ok := x.Body.List[0].(*ast.ReturnStmt)
+			if !ok || len(r.Results) != 1 || !isIdent(r.Results[0], param) {
+				return nil, false
+			}
+			haveFast = true
+		case *ast.ExprStmt: // sb.Grow(…) | sb.WriteString(str[:first])
+			call, ok := x.X.(*ast.CallExpr)
+			if !ok || sb == "" {
+				return nil, false
+			}
+			switch dsCallName(call) {
+			case sb + ".Grow":
+			case sb + ".WriteString":
+				if len(call.Args) != 1 || haveLoop || !haveFast {
+					return nil, false
+				}
+				sl, ok := call.Args[0].(*ast.SliceExpr)
+				if !ok || !isIdent(sl.X, param) || sl.Low != nil || !isIdent(sl.High, first) || sl.Slice3 {
+					return nil, false
+				}
+				havePrefix = true
+			default:
+				return nil, false
+			}
+		case *ast.ForStmt:
+			if haveLoop {
+				return nil, false
+			}
+			loop, haveLoop = x, true
+		case *ast.ReturnStmt: // return sb.String()
+			if len(x.Results) != 1 || !haveLoop {
+				return nil, false
+			}
+			call, ok := x.Results[0].(*ast.CallExpr)
+			if !ok || dsCallName(call) != sb+".String" {
+				return nil, false
+			}
+			haveRet = true
+		default:
+			return nil, false
+		}
+	}
+	if !haveLoop || !haveRet || sb == "" || haveFast != havePrefix {
+		return nil, false
+	}
+	// for i := first|0; i < len(str); i++
+	init, ok := loop.Init.(*ast.AssignStmt)
+	if !ok || len(init.Lhs) != 1 || len(init.Rhs) != 1 || init.Tok != token.DEFINE {
+		return nil, false
+	}
+	iv, ok := init.Lhs[0].(*ast.Ident)
+	if !ok {
+		return nil, false
+	}
+	if haveFast {
+		if !isIdent(init.Rhs[0], first) {
+			return nil, false
+		}
+	} else if z, ok := init.Rhs[0].(*ast.BasicLit); !ok || z.Value != "0" {
+		return nil, false
+	}
+	cond, ok := loop.Cond.(*ast.BinaryExpr)
+	if !ok || cond.Op != token.LSS || !isIdent(cond.X, iv.Name) {
+		return nil, false
+	}
+	if lc, ok := cond.Y.(*ast.CallExpr); !ok || dsCallName(lc) != "len" || len(lc.Args) != 1 || !isIdent(lc.Args[0], param) {
+		return nil, false
+	}
+	if post, ok := loop.Post.(*ast.IncDecStmt); !ok || post.Tok != token.INC || !isIdent(post.X, iv.Name) {
+		return nil, false
+	}
+	if len(loop.Body.List) != 1 {
+		return nil, false
+	}
+	sw, ok := loop.Body.List[0].(*ast.SwitchStmt)
+	if !ok {
+		return nil, false
+	}
+	// switch c := str[i]; c { … }
+	cvar := ""
+	if sw.Init != nil {
+		as, ok := sw.Init.(*ast.AssignStmt)
+		if !ok || len(as.Lhs) != 1 || len(as.Rhs) != 1 || as.Tok != token.DEFINE {
+			return nil, false
+		}
+		ix, ok := as.Rhs[0].(*ast.IndexExpr)
+		id, ok2 := as.Lhs[0].(*ast.Ident)
+		if !ok || !ok2 || !isIdent(ix.X, param) || !isIdent(ix.Index, iv.Name) || !isIdent(sw.Tag, id.Name) {
+			return nil, false
+		}
+		cvar = id.Name
+	} else {
+		return nil, false
+	}
+	m := map[byte]string{}
+	haveDefault := false
+	for _, cc := range sw.Body.List {
+		cl, ok := cc.(*ast.CaseClause)
+		if !ok || len(cl.Body) != 1 {
+			return nil, false
+		}
+		es, ok := cl.Body[0].(*ast.ExprStmt)
+		if !ok {
+			return nil, false
+		}
+		call, ok := es.X.(*ast.CallExpr)
+		if !ok || len(call.Args) != 1 {
+			return nil, false
+		}
+		if cl.List == nil { // default: sb.WriteByte(c)
+			if dsCallName(call) != sb+".WriteByte" || !isIdent(call.Args[0], cvar) {
+				return nil, false
+			}
+			haveDefault = true
+			continue
+		}
+		if dsCallName(call) != sb+".WriteString" {
+			return nil, false
+		}
+		rep, ok := dsStrLit(call.Args[0])
+		if !ok {
+			return nil, false
+		}
+		for _, le := range cl.List {
+			b, ok := dsByteLit(le)
+			if !ok {
+				return nil, false
+			}
+			if _, dup := m[b]; dup {
+				return nil, false
+			}
+			m[b] = rep
+		}
+	}
+	if !haveDefault {
+		return nil, false
+	}
+	if haveFast {
+		// the fast path returns the argument unchanged when none of fastSet occurs: sound iff
+		// every case byte is in the set (bytes of the set that are no case are harmless)
+		for b := range m {
+			if strings.IndexByte(fastSet, b) < 0 {
+				return nil, false
+			}
+		}
+		for i := 0; i < len(fastSet); i++ {
+			if fastSet[i] >= 0x80 {
+				return nil, false // IndexAny works on runes; keep to ASCII
+			}
+		}
+	}
+	return m, true
+}
+
+// dsEscapeAllMaps: does escapeAllForDot apply escapeForDot to every element?  "yes" for the two
+// recognised loop forms (out[i] = escapeForDot(in[i]) / out = append(out, escapeForDot(s)) with s
+// ranging over the parameter), "unknown" otherwise (then only the harness pins it: legend lines).
+func dsEscapeAllMaps(c *dsCtx) string {
+	fd, ok := c.funcs["escapeAllForDot"]
+	if !ok || len(fd.Type.Params.List) != 1 || len(fd.Type.Params.List[0].Names) != 1 {
+		return "unknown"
+	}
+	param := fd.Type.Params.List[0].Names[0].Name
+	found, loops := false, 0
 	ast.Inspect(fd.Body, func(n ast.Node) bool {
-		if a, ok := n.(*ast.AssignStmt); ok && len(a.Lhs) == 1 && len(a.Rhs) == 1 {
-			if _, isIdx := a.Lhs[0].(*ast.IndexExpr); isIdx {
-				if call, ok := a.Rhs[0].(*ast.CallExpr); ok && dsCallName(call) == "escapeForDot" && len(call.Args) == 1 {
-					if _, isIdx := call.Args[0].(*ast.IndexExpr); isIdx {
-						found = true
-					}
+		rs, ok := n.(*ast.RangeStmt)
+		if !ok {
+			return true
+		}
+		loops++
+		if id, ok := rs.X.(*ast.Ident); !ok || id.Name != param || len(rs.Body.List) != 1 {
+			return true
+		}
+		a, ok := rs.Body.List[0].(*ast.AssignStmt)
+		if !ok || len(a.Lhs) != 1 || len(a.Rhs) != 1 {
+			return true
+		}
+		elem := func(e ast.Expr) bool { // in[i] or the range value
+			if ix, ok := e.(*ast.IndexExpr); ok {
+				x, ok1 := ix.X.(*ast.Ident)
+				i, ok2 := ix.Index.(*ast.Ident)
+				k, ok3 := rs.Key.(*ast.Ident)
+				return ok1 && ok2 && ok3 && x.Name == param && i.Name == k.Name
+			}
+			v, ok1 := e.(*ast.Ident)
+			rv, ok2 := rs.Value.(*ast.Ident)
+			return ok1 && ok2 && v.Name == rv.Name
+		}
+		esc := func(e ast.Expr) bool {
+			call, ok := e.(*ast.CallExpr)
+			return ok && dsCallName(call) == "escapeForDot" && len(call.Args) == 1 && elem(call.Args[0])
+		}
+		if _, isIdx := a.Lhs[0].(*ast.IndexExpr); isIdx && esc(a.Rhs[0]) {
+			found = true
+		}
+		if call, ok := a.Rhs[0].(*ast.CallExpr); ok && dsCallName(call) == "append" && len(call.Args) == 2 && esc(call.Args[1]) {
+			if l, ok := a.Lhs[0].(*ast.Ident); ok {
+				if f, ok := call.Args[0].(*ast.Ident); ok && f.Name == l.Name {
+					found = true
 				}
 			}
 		}
 		return true
 	})
-	return found
+	if found && loops == 1 {
+		return "yes"
+	}
+	return "unknown"
 }
 
 // dsOtherEmitters: non-test Go files (outside dotgraph.go) with string literals that look like
